@@ -263,7 +263,12 @@ func NewCompressedPackedForwardMessageFromBytes(
 		return nil, err
 	}
 
-	pfm := NewPackedForwardMessageFromBytes(tag, mc.Bytes())
+	// The compressor goes back to the pool: the message gets its own copy of
+	// the compressed stream.
+	stream := make([]byte, len(mc.Bytes()))
+	copy(stream, mc.Bytes())
+
+	pfm := NewPackedForwardMessageFromBytes(tag, stream)
 	pfm.Options = &MessageOptions{Compressed: "gzip"}
 
 	return pfm, nil
